@@ -396,7 +396,7 @@ PROPS["C02"] = dict(
     confirm_replays=3,
     rule="case = schedule shape: subject (Logger installed as Qt message handler with producers using the qDebug/qInfo/qWarning/qCritical and qC* macros; bare "
     "OwnThreadHandler<Pipeline> in synchronous mode with producers calling process(); Logger with scoped sub-pipelines behind a level filter and a category filter so "
-    "that messages qualify for a subset of the sinks) x 2..32 producer threads x 1..200 messages each x pre-call delay (none/yield/1-200 us spin) x handler durations "
+    "that messages qualify for a subset of the sinks; 'install': 50..400 rounds of installing a fresh Logger as message handler while 2..6 threads keep logging, every message must reach exactly one of the previously installed handler and the new logger's sink) x 2..32 producer threads x 1..200 messages each x pre-call delay (none/yield/1-200 us spin) x handler durations "
     "(first handler, middle, sink: 0..2 ms on every k-th message) x type and category mix. Pipeline under test: in-flight entry probe -> SeqNumberAttr -> recorder -> "
     "DuplicateFilter -> PrettyFormatter -> sinks -> exit probe; every parkEvery-th entry parks inside the pipeline until another thread enters or 0.1-1.5 ms pass. "
     "Non-trivial = at least two producers' log calls overlapped in real time (steady-clock stamps around every call) AND a probe park happened while another call was pending; "
@@ -406,7 +406,7 @@ PROPS["C02"] = dict(
         "a failing shape is replayed 3 times; it is reported when it fails again at least once, otherwise recorded as inconclusive",
         "TSan is not used (uninstrumented libQt5Core)",
     ],
-    floors={"calls_overlapped": 0.8, "park_during_overlap": 0.6, "subject_nested": 0.15, "subject_bare": 0.15},
+    floors={"calls_overlapped": 0.8, "park_during_overlap": 0.5, "subject_nested": 0.15, "subject_bare": 0.15, "subject_install": 0.05},
     technique="property-based testing (rapidcheck) over generated schedule shapes with a parked in-flight probe forcing overlap; history invariants (exactly-once per qualifying sink, max in-flight 1, per-thread order, consecutive sequence numbers, consistent thread table)",
     level_text="Generated schedule shapes run with real threads; the recorded history must satisfy exactly-once per qualifying sink, mutual exclusion (parked probe), per-thread order, consecutive sequence numbers and a consistent PrettyFormatter thread table; ASan/UBSan on. Exploration of schedules, not enumeration.",
     level_note="Trusted: harness/rc_concurrent.cpp (probe, recorders); the OS scheduler for variety. Lock-scope mistakes are made visible by the parked probe, not by timing luck.",
